@@ -85,7 +85,8 @@ impl Sim {
                 // a restart runs its own (committed) startup transaction; observe where it left us
             }
             _ => {
-                let qs = self.qs.as_ref().expect("up");
+                // a failed restart was already reported; the rest of this worker's history cannot run
+                let Some(qs) = self.qs.as_ref() else { return };
                 let mut w = match qs.write(self.ct).await {
                     Ok(w) => w,
                     Err(e) => {
@@ -127,7 +128,7 @@ impl Sim {
         // observe the change id the committed transaction stamped
         if a == Act::Restart {
             // commit one canary write right after the restart at the same clock value
-            let qs = self.qs.as_ref().expect("up");
+            let Some(qs) = self.qs.as_ref() else { return };
             let mut w = qs.write(self.ct).await.expect("write");
             let ml = ModifyList::new_list(vec![
                 Modify::Purged(Attribute::Description),
